@@ -112,6 +112,10 @@ pub(super) fn start_background_workers(fsync_schedule: FsyncSchedule) -> Arc<mps
                             }
                         }
 
+                        #[cfg(walrus_verif)]
+                        for (_fd, p) in fsync_batch.iter() {
+                            let _ = crate::wal::verif::io_gate("bg_fsync", p, "");
+                        }
                         // Single syscall to submit all fsync operations!
                         match ring.submit_and_wait(fsync_batch.len()) {
                             Ok(submitted) => {
@@ -183,6 +187,8 @@ pub(super) fn start_background_workers(fsync_schedule: FsyncSchedule) -> Arc<mps
 
                     // Perform batched deletions now that mmaps/fds are dropped
                     for path in delete_pending.drain() {
+                        #[cfg(walrus_verif)]
+                        let _ = crate::wal::verif::io_gate("bg_unlink", &path, "");
                         match fs::remove_file(&path) {
                             Ok(_) => debug_print!("[reclaim] deleted file {}", path),
                             Err(e) => {
